@@ -414,7 +414,7 @@ func firstFrames(st string) string {
 	lines := strings.Split(st, "\n")
 	var keep []string
 	for _, l := range lines {
-		if strings.Contains(l, "gosymx/symx.") && !strings.Contains(l, "RunPath") && !strings.Contains(l, "panic") {
+		if strings.Contains(l, "gosymx/symx.") && !strings.Contains(l, "RunPath") && !strings.Contains(l, "panic") && !strings.Contains(l, "runFrame") && !strings.Contains(l, "runDefer") && !strings.Contains(l, "callSSA.func") {
 			keep = append(keep, strings.TrimSpace(l))
 			if len(keep) >= 3 {
 				break
